@@ -7,15 +7,15 @@
 EXTENDS PacketR, TLC
 CONSTANTS MaxPt, Positions, Bits, SigLens, CtCuts, MaxFaults, SKIPVERIFY
 
-VARIABLES ptLen, f, nf, verify, pc, released
-vars == <<ptLen, f, nf, verify, pc, released>>
+VARIABLES ptLen, f, nf, verify, pc, released, attempts
+vars == <<ptLen, f, nf, verify, pc, released, attempts>>
 
 Clean == [ctFlips |-> {}, sigFlips |-> {}, sigLen |-> 16, ctCut |-> 0, hk |-> "right", ak |-> "right"]
 Toggle(S, x) == IF x \in S THEN S \ {x} ELSE S \cup {x}
 
-Init == ptLen \in 0..MaxPt /\ f = Clean /\ nf = 0 /\ verify \in BOOLEAN /\ pc = "wire" /\ released = "nothing"
+Init == ptLen \in 0..MaxPt /\ f = Clean /\ nf = 0 /\ verify \in BOOLEAN /\ pc = "wire" /\ released = "nothing" /\ attempts = 0
 
-Fault(g) == pc = "wire" /\ nf < MaxFaults /\ f' = g /\ nf' = nf + 1 /\ UNCHANGED <<ptLen, verify, pc, released>>
+Fault(g) == pc = "wire" /\ nf < MaxFaults /\ f' = g /\ nf' = nf + 1 /\ UNCHANGED <<ptLen, verify, pc, released, attempts>>
 FlipCt   == \E p \in Positions, b \in Bits : Fault([f EXCEPT !.ctFlips = Toggle(@, <<p, b>>)])
 FlipSig  == \E p \in Positions, b \in Bits : f.sigLen > 0 /\ Fault([f EXCEPT !.sigFlips = Toggle(@, <<p, b>>)])
 CutSig   == \E n \in SigLens : Fault([f EXCEPT !.sigLen = n, !.sigFlips = {}])
@@ -31,14 +31,18 @@ Authenticate ==
        THEN IF f.hk = "none" \/ ~SigValid(f) THEN pc' = "done" /\ released' = "ValueError"
             ELSE pc' = "authenticated" /\ UNCHANGED released
        ELSE pc' = "authenticated" /\ UNCHANGED released
-    /\ UNCHANGED <<ptLen, f, nf, verify>>
+    /\ UNCHANGED <<ptLen, f, nf, verify, attempts>>
 \* step 2: AES-CBC decrypt, no unpadding
 Decrypt ==
     /\ pc = "authenticated"
     /\ released' = IF f.ctFlips = {} /\ f.ctCut = 0 /\ f.ak = "right" THEN "plain" ELSE "other"
     /\ pc' = "done"
-    /\ UNCHANGED <<ptLen, f, nf, verify>>
-Next == FlipCt \/ FlipSig \/ CutSig \/ CutCt \/ WrongHmac \/ NoHmac \/ WrongAes \/ Authenticate \/ Decrypt
+    /\ UNCHANGED <<ptLen, f, nf, verify, attempts>>
+\* the same packet is presented again (possibly tampered with in between): the verdict may not depend on earlier verdicts
+Resubmit == /\ pc = "done" /\ attempts < 1
+            /\ pc' = "wire" /\ released' = "nothing" /\ attempts' = attempts + 1
+            /\ UNCHANGED <<ptLen, f, nf, verify>>
+Next == Resubmit \/ FlipCt \/ FlipSig \/ CutSig \/ CutCt \/ WrongHmac \/ NoHmac \/ WrongAes \/ Authenticate \/ Decrypt
 Spec == Init /\ [][Next]_vars /\ WF_vars(Authenticate) /\ WF_vars(Decrypt)
 
 AuthBeforeDecrypt == (verify /\ released \in {"plain", "other"}) => SigValid(f)
